@@ -598,6 +598,13 @@ def run_files(spec, log, scratch):
                 cf = os.path.join(scratch, "cached_%d.npy" % i)
                 c2 = copy.deepcopy(card)
                 c2["data"].update({"data": [f1], "phsp": [f2], "cached_data": cf})
+                if op.get("z"):
+                    # a background sample of another size with weight scaling: the cached file must hold what the
+                    # first session used, and the second session must not process it a second time
+                    nb = max(1, N // 2 + 1)
+                    f3 = os.path.join(scratch, "cd_bg_%d.npy" % i)
+                    np.save(f3, arr[: nb * n])
+                    c2["data"].update({"bg": [f3], "bg_weight": 0.3, "weight_scale": True})
                 with file_size_limit(fault["bytes"]) if faulty else contextlib.nullcontext():
                     if faulty:
                         log.count("fault.file_size_limit")
@@ -607,6 +614,13 @@ def run_files(spec, log, scratch):
                 s2 = ConfigLoader(copy.deepcopy(c2))
                 d2 = s2.get_all_data()
                 log.count("probe.cached_data_second_session")
+                for a, b2, nm in zip(d1, d2, ("data", "phsp", "bg", "inmc")):
+                    if a is None and b2 is None:
+                        continue
+                    err = same_struct(np, a, b2) if (a is not None and b2 is not None) else "sample %s is missing in one session" % nm
+                    if err:
+                        log.fail("file-roundtrip", "cached_data|second-session-differs|%s" % nm, "the %s sample of the second session (read from cached_data) differs from what the first session used: %s" % (nm, err), step=i)
+                        raise Failure()
                 for a, b2, nm in zip(d1[:2], d2[:2], ("data", "phsp")):
                     for g1, g2 in zip(a, b2):
                         pa = {str(kk): np.array(v["p"]) for kk, v in g1["particle"].items() if str(kk) in P}
